@@ -69,6 +69,9 @@ def fl(x):
     return float(x) if isinstance(x, Fraction) else x
 
 
+SELFCHECK_PER_JOB = 2
+
+
 class Job:
     def __init__(self, name, func, kwargs=None, timeout=300, harness=None):
         self.name = name              # unique within the property
@@ -91,7 +94,20 @@ def run_symx(harness, fn, functions, bounds, timeout, assumptions=(), concretize
     JSON-able concrete inputs for the replay."""
     from engine import symx
     ex = symx.Explorer(timeout=timeout, logic=logic, int_lo=int_lo, int_hi=int_hi, max_paths=max_paths)
-    ex.path_hook = path_hook
+    selfcheck = []
+
+    def hook(e):
+        # concolic self-check material: for the first few completed paths, the path's model turned into concrete inputs
+        if concretize is not None and e.last_info is not None and len(selfcheck) < SELFCHECK_PER_JOB and e.reached_flag:
+            try:
+                import z3 as _z3
+                if e.s.check() == _z3.sat:
+                    selfcheck.append(jsonable(concretize(e.s.model(), dict(e.last_info))))
+            except BaseException:
+                pass
+        if path_hook is not None:
+            path_hook(e)
+    ex.path_hook = hook
     ex.forced = dict(forced or {})
     t0 = time.time()
     try:
@@ -112,7 +128,9 @@ def run_symx(harness, fn, functions, bounds, timeout, assumptions=(), concretize
                 verdict, msg = "inconclusive", "model not concretisable: %s" % u
     v = {"confirmed": "confirmed_all_paths", "counterexample": "counterexample", "budget": "no_counterexample_budget_exhausted",
          "unsupported": "inconclusive", "inconclusive": "inconclusive"}[verdict]
-    return result(harness, engine, v, st, bounds, [fn_id(f) for f in functions], assumptions, ex.samples, cex, msg, shims)
+    r = result(harness, engine, v, st, bounds, [fn_id(f) for f in functions], assumptions, ex.samples, cex, msg, shims)
+    r["selfcheck_inputs"] = selfcheck
+    return r
 
 
 def merge(harness, parts):
@@ -129,6 +147,7 @@ def merge(harness, parts):
     out["functions"] = sorted(set(f for r in parts for f in r.get("functions", [])))
     out["assumptions"] = sorted(set(a for r in parts for a in r.get("assumptions", [])))
     out["samples"] = [s for r in parts for s in r.get("samples", [])[:1]][:4]
+    out["selfcheck_inputs"] = [x for r in parts for x in r.get("selfcheck_inputs", [])][:SELFCHECK_PER_JOB]
     out["extra"] = dict(worst.get("extra") or {}, runs=len(parts),
                         runs_confirmed=sum(1 for r in parts if r["verdict"] == "confirmed_all_paths"))
     if worst["verdict"] != "confirmed_all_paths" and not out.get("message"):
